@@ -89,6 +89,28 @@ func (h HelperContext) BlockWith(hc hctx.Context) (string, error) {
 	return bb.String(), nil
 }
 
+// BlockOf executes the block of another helper call, one that was stored
+// (contentFor), as part of this call: a break or continue in that block
+// reaches the statement that holds this call, not the call that stored the
+// block, which returned long ago.
+func (h HelperContext) BlockOf(owner hctx.HelperContext, hc hctx.Context) (string, error) {
+	switch o := owner.(type) {
+	case HelperContext:
+		o.signal = h.signal
+		return o.BlockWith(hc)
+	case *HelperContext:
+		if o != nil {
+			oo := *o
+			oo.signal = h.signal
+			return oo.BlockWith(hc)
+		}
+	}
+	if owner == nil {
+		return "", fmt.Errorf("no block defined")
+	}
+	return owner.BlockWith(hc)
+}
+
 // blockError remembers which statement of a helper's block failed, so that
 // the error is reported at that statement's line.
 type blockError struct {
